@@ -1,9 +1,13 @@
 #!/bin/bash
-# runs every check's quick (or given tier) command, prints one line per check
-cd /verif
+# tools/runall.sh [tier]   runs every check's command for the tier from the directory this script lives in
+# (works inside a `vp run` snapshot: binaries and evidence go to the snapshot, not to /verif)
+HERE="$(cd "$(dirname "$0")/.." && pwd)"
+cd "$HERE"
 TIER=${1:-quick}
+if [ "$HERE" != "/verif" ]; then export VERIF_BINDIR="$HERE/bin" VERIF_ROOT="$HERE"; cp -n /verif/known_findings.json "$HERE/" 2>/dev/null; fi
 for i in $(seq -w 1 19); do
   s=$(date +%s)
   out=$(./run C$i $TIER 2>&1); rc=$?
   echo "C$i rc=$rc $(( $(date +%s)-s ))s $(echo "$out" | grep -c '^VIOLATION') violations $(echo "$out" | grep -c '^KNOWN-FINDING') known"
+  echo "$out" | grep -A1 "^  what" | cut -c1-300 | head -6
 done
